@@ -139,6 +139,32 @@ def check_case(case, common, out):
             if r is False:
                 viol(out, "C14.fusion:partition-content-differs", f"{cid}|{vname}|partition={i}", f"unfused={D.describe(a)} fused={D.describe(b)}", replay)
                 break
+    # the public path: optimize(fuse=True) against optimize(fuse=False)
+    try:
+        unf = q.optimize(fuse=False).expr
+    except Exception:
+        unf = None  # C01's business
+    if unf is not None:
+        ref = _parts(unf)
+        if ref[0] == "ok":
+            bump(out, "C14.public:optimize(fuse=True)~optimize(fuse=False)", cid, rule="every program x layout: partitions of optimize(fuse=True) against optimize(fuse=False)")
+            try:
+                fz = q.optimize(fuse=True).expr
+                got = _parts(fz)
+            except Exception as ex:
+                got = ("err", f"{type(ex).__name__}: {str(ex)[:200]}")
+            if got[0] == "err":
+                viol(out, "C14.public:fused-plan-fails", cid, got[1], replay)
+            elif len(got[1]) != len(ref[1]):
+                viol(out, "C14.public:partition-count-differs", cid, f"{len(ref[1])} -> {len(got[1])}", replay)
+            else:
+                for i, (a, b) in enumerate(zip(ref[1], got[1])):
+                    r = D.equiv(a, b)
+                    if r is False and (prog.order_free or "sort" in prog.tags):
+                        r = D.equiv(a, b, order_free=True)
+                    if r is False:
+                        viol(out, "C14.public:partition-content-differs", f"{cid}|partition={i}", f"unfused={D.describe(a)} fused={D.describe(b)}", replay)
+                        break
     if len(out["samples"]) < 2:
         out["samples"].append({"case": cid})
 
